@@ -13,4 +13,12 @@ var vpHarnesses = map[string]func(){
 	"VP_C10_Delete":    VP_C10_Delete,
 	"VP_C10_UpdateHash": VP_C10_UpdateHash,
 	"VP_C10_Reload":    VP_C10_Reload,
+	"VP_C19_IndexRead":  VP_C19_IndexRead,
+	"VP_C19_ConfigLoad": VP_C19_ConfigLoad,
+	"VP_C19_NewHead":    VP_C19_NewHead,
+	"VP_C19_RefsLoad":   VP_C19_RefsLoad,
+	"VP_C19_ReflogLoad": VP_C19_ReflogLoad,
+	"VP_C20_WriteLoad":  VP_C20_WriteLoad,
+	"VP_C20_Precedence": VP_C20_Precedence,
+	"VP_C11_RoundTrip":  VP_C11_RoundTrip,
 }
